@@ -1011,9 +1011,19 @@ Qed.
 
 (* find_first / find_last with a start offset [i] (a code point position):
    search the code point window [max 0 i, length cs); null when i > length cs *)
+(* the byte string is empty exactly when the code point list is *)
+Lemma is_nil_encode_all cs : scalars cs ->
+  is_nil (E cs) = match cs with [] => true | _ => false end.
+Proof.
+  intros H. destruct cs as [|c cs]; [reflexivity|]. apply scalars_cons in H as [Hc _].
+  destruct (E (c :: cs)) eqn:Ec; [exfalso; revert Ec; apply encode_all_nonnil, Hc | reflexivity].
+Qed.
+
 Theorem find_from_code_points : forall last cs ps i, scalars cs -> scalars ps -> i <= MaxInt ->
   find_from last (VStr (E cs)) (VStr (E ps)) (vint i) =
-  Ok (if i >? Z.of_nat (length cs) then VNull else
+  Ok (if (match cs with [] => true | _ => false end) || (match ps with [] => true | _ => false end)
+      then VNull else
+      if i >? Z.of_nat (length cs) then VNull else
       match cp_window_find last cs ps (Z.to_nat (Z.max 0 i)) (length cs) with
       | Some m => vint (Z.of_nat m)
       | None => VNull
@@ -1021,6 +1031,8 @@ Theorem find_from_code_points : forall last cs ps i, scalars cs -> scalars ps ->
 Proof.
   intros last cs ps i Hcs Hps Hi. unfold find_from. cbn [str_arg bind].
   rewrite int_arg_vint by assumption. cbn [bind].
+  rewrite !is_nil_encode_all by assumption.
+  destruct (_ || _); [reflexivity|].
   rewrite start_offset_encode_all by assumption.
   destruct (Z.gtb_spec i (Z.of_nat (length cs))); [reflexivity|].
   rewrite <- boff_all. apply find_window; auto. lia.
@@ -1030,7 +1042,9 @@ Qed.
 Theorem find_between_code_points : forall last cs ps i j, scalars cs -> scalars ps ->
   i <= MaxInt -> j <= MaxInt ->
   find_between last (VStr (E cs)) (VStr (E ps)) (vint i) (vint j) =
-  Ok (if (i >? Z.of_nat (length cs)) || (j <? 0) then VNull else
+  Ok (if (match cs with [] => true | _ => false end) || (match ps with [] => true | _ => false end)
+      then VNull else
+      if (i >? Z.of_nat (length cs)) || (j <? 0) then VNull else
       let lo := Z.to_nat (Z.max 0 i) in
       let hi := Nat.min (Z.to_nat j) (length cs) in
       if (hi <? lo)%nat then VNull else
@@ -1042,6 +1056,8 @@ Proof.
   intros last cs ps i j Hcs Hps Hi Hj. unfold find_between. cbn [str_arg bind].
   rewrite to_int_vint by assumption. cbn [bind].
   rewrite int_arg_vint by assumption. cbn [bind].
+  rewrite !is_nil_encode_all by assumption.
+  destruct (_ || _); [reflexivity|].
   rewrite start_offset_encode_all by assumption.
   destruct (Z.gtb_spec i (Z.of_nat (length cs))); [reflexivity|]. cbn [orb].
   destruct (Z.ltb_spec j 0); [reflexivity|]. cbv zeta.
@@ -1544,17 +1560,36 @@ Qed.
 (* the empty needle; starts_with / ends_with                           *)
 (* ------------------------------------------------------------------ *)
 
-(* with a start offset the empty needle is found at the (clamped) start, respectively
-   at the end - unlike find_first / find_last, which answer null for an empty needle *)
-Corollary find_from_empty_needle cs i : scalars cs -> i <= Z.of_nat (length cs) -> i <= MaxInt ->
-  find_from false (VStr (E cs)) (VStr []) (vint i) = Ok (vint (Z.max 0 i)) /\
-  find_from true (VStr (E cs)) (VStr []) (vint i) = Ok (vint (Z.of_nat (length cs))).
+(* with a start offset (and an end offset) an empty needle or an empty subject answers
+   null, whatever the offsets - just like find_first / find_last *)
+Corollary find_from_empty_needle last cs i : scalars cs -> i <= MaxInt ->
+  find_from last (VStr (E cs)) (VStr []) (vint i) = Ok VNull.
 Proof.
-  intros H Hi Hm. change (@nil Z) with (E []).
-  rewrite !find_from_code_points by (auto using scalars_nil).
-  destruct (Z.gtb_spec i (Z.of_nat (length cs))); [lia|].
-  unfold cp_window_find. rewrite cp_find_first_nil, cp_find_last_nil. cbn [option_map].
-  rewrite firstn_length, skipn_length. split; do 2 f_equal; lia.
+  intros H Hm. change (VStr []) with (VStr (E [])).
+  rewrite find_from_code_points by (auto using scalars_nil).
+  now rewrite orb_true_r.
+Qed.
+
+Corollary find_between_empty_needle last cs i j : scalars cs -> i <= MaxInt -> j <= MaxInt ->
+  find_between last (VStr (E cs)) (VStr []) (vint i) (vint j) = Ok VNull.
+Proof.
+  intros H Hi Hj. change (VStr []) with (VStr (E [])).
+  rewrite find_between_code_points by (auto using scalars_nil).
+  now rewrite orb_true_r.
+Qed.
+
+Corollary find_from_empty_subject last ps i : scalars ps -> i <= MaxInt ->
+  find_from last (VStr []) (VStr (E ps)) (vint i) = Ok VNull.
+Proof.
+  intros H Hm. change (VStr []) with (VStr (E [])).
+  rewrite find_from_code_points by (auto using scalars_nil). reflexivity.
+Qed.
+
+Corollary find_between_empty_subject last ps i j : scalars ps -> i <= MaxInt -> j <= MaxInt ->
+  find_between last (VStr []) (VStr (E ps)) (vint i) (vint j) = Ok VNull.
+Proof.
+  intros H Hi Hj. change (VStr []) with (VStr (E [])).
+  rewrite find_between_code_points by (auto using scalars_nil). reflexivity.
 Qed.
 
 Theorem starts_with_code_points cs ps : scalars cs -> scalars ps ->
@@ -1866,6 +1901,7 @@ Theorem find_from_rename last cs ps i : scalars cs -> scalars ps -> i <= MaxInt 
   find_from last (VStr (E cs)) (VStr (E ps)) (vint i).
 Proof.
   intros Hcs Hps Hi. rewrite !find_from_code_points, cp_window_find_map, map_length; auto using scalars_map.
+  destruct cs, ps; reflexivity.
 Qed.
 
 Theorem find_between_rename last cs ps i j : scalars cs -> scalars ps -> i <= MaxInt -> j <= MaxInt ->
@@ -1873,7 +1909,8 @@ Theorem find_between_rename last cs ps i j : scalars cs -> scalars ps -> i <= Ma
   find_between last (VStr (E cs)) (VStr (E ps)) (vint i) (vint j).
 Proof.
   intros Hcs Hps Hi Hj. rewrite !find_between_code_points; auto using scalars_map.
-  rewrite map_length. cbv zeta. now rewrite cp_window_find_map.
+  rewrite map_length. cbv zeta. rewrite cp_window_find_map by assumption.
+  destruct cs, ps; reflexivity.
 Qed.
 
 Theorem pad_rename left cs p w : scalars cs -> scalar_ok p = true -> 0 <= w <= MaxInt ->
@@ -1933,3 +1970,9 @@ Print Assumptions find_first_code_points.
 Print Assumptions find_between_code_points.
 Print Assumptions breplace_valid.
 Print Assumptions find_between_rename.
+Print Assumptions find_from_code_points.
+Print Assumptions find_from_empty_needle.
+Print Assumptions find_between_empty_needle.
+Print Assumptions find_from_empty_subject.
+Print Assumptions find_between_empty_subject.
+Print Assumptions find_from_rename.
